@@ -108,9 +108,11 @@ var pureLibPkgs = map[string]bool{
 	"strings": true, "strconv": true, "math": true, "unicode": true, "unicode/utf8": true, "unicode/utf16": true,
 	"path": true, "errors": true, "html": true, "math/bits": true, "slices": false, "sort": false,
 	"path/filepath": true, "net/url": true, "regexp": true, "bytes": true, "hash/fnv": false,
+	// logging / context plumbing: no effect on the program's own heap objects
+	"log/slog": true, "context": true, "runtime/debug": true,
 }
 var pureLibFuncs = map[string]bool{
-	"fmt.Sprintf": true, "fmt.Sprint": true, "fmt.Sprintln": true, "fmt.Errorf": true,
+	"fmt.Sprintf": true, "fmt.Sprint": true, "fmt.Sprintln": true, "fmt.Errorf": true, "os.Getenv": true,
 }
 
 func (a *act) invoke(fn *ssa.Function, bindings []Val, args []Val, site ssa.CallInstruction, cs callSite, rtyp types.Type, st *State, reach Term) (Val, *State) {
